@@ -846,3 +846,21 @@ def shrink_candidates(inp):
     for i, s in enumerate(xs):
         if s[2] != round(s[2]):
             c = dict(inp); c["samples"] = xs[:i] + [[s[0], s[1], float(round(s[2]))]] + xs[i + 1:]; yield c
+
+
+# --------------------------------------------------------------------------------------
+# second tie: the decision tables of this property regenerated from the source on every run
+# (harness/dectables2.py -> generated Lean file checked by the kernel; bridge: SA/Theorems/DecTables2.lean)
+# --------------------------------------------------------------------------------------
+def extra_gate_start():
+    """start the translator + Lean check in a child process; the cases run meanwhile"""
+    import common
+    import dectables2
+    return dectables2.start(common.REPO)
+
+
+def extra_gate_finish(handle):
+    """-> {problems, theorems, obligations, discharged, notes, evidence}; a definite mismatch of a table row is a
+    broken proof obligation, `unknown` rows are evidence only"""
+    import dectables2
+    return dectables2.gate_result(dectables2.finish(handle), ID)
